@@ -944,29 +944,69 @@ pub fn exec_c20_e1(j: &J) -> Result<RunOut, String> {
             };
             if inner_eff == 0 {
                 out.count("probe.early_exit_with_undefined_loop_length", 1);
-            } else if props % inner_eff != 0 {
-                out.violate(Violation::new("early-exit-inside-loop", m as u64, format!("run with convergence stopped after {} proposals, not on an inner-loop boundary (inner_steps {})", props, inner_eff)));
             } else {
-                let l = props / inner_eff;
-                if l < 6 {
-                    out.violate(Violation::new("early-exit-too-soon", m as u64, format!("run with convergence = {:e} stopped after {} inner loops; more than five consecutive flat loops are required", thr, l)));
-                } else {
+                // The run may end with a bookkeeping evaluation of its unchanged state (a final
+                // assertion on the early-exit path too).  When the last common evaluations are
+                // indistinguishable from such bookkeeping (nothing moved: zero-size or clamped
+                // proposals look the same), the number of proposals made is `props` or one or two
+                // fewer; the clauses hold if they hold for one of these readings.
+                let mut trailing_nulls = 0u64;
+                while trailing_nulls < 2 && (trailing_nulls as usize) < m.saturating_sub(lead) {
+                    let k = m - 1 - trailing_nulls as usize;
+                    let is_null = tr.complete() && tr.steps.get(k).map(|st| st.edges.iter().any(|e| e.null)).unwrap_or(false);
+                    if !is_null {
+                        break;
+                    }
+                    trailing_nulls += 1;
+                }
+                let judge = |props: u64| -> (Option<Violation>, bool) {
+                    if props % inner_eff != 0 {
+                        return (Some(Violation::new("early-exit-inside-loop", m as u64, format!("run with convergence stopped after {} proposals, not on an inner-loop boundary (inner_steps {})", props, inner_eff))), false);
+                    }
+                    let l = props / inner_eff;
+                    if l < 6 {
+                        return (Some(Violation::new("early-exit-too-soon", m as u64, format!("run with convergence = {:e} stopped after {} inner loops; more than five consecutive flat loops are required", thr, l))), false);
+                    }
                     let mut unresolved = false;
                     for q in (l - 5)..=l {
                         match (score_after((q - 1) * inner_eff), score_after(q * inner_eff)) {
                             (Some(a), Some(b)) => {
                                 if !(b - a < thr) {
-                                    out.violate(Violation::new(
-                                        "early-exit-too-soon",
-                                        m as u64,
-                                        format!("run with convergence = {:e} stopped after loop {}, but loop {} improved the score by {:e} (>= threshold)", thr, l, q, b - a),
-                                    ));
+                                    return (
+                                        Some(Violation::new(
+                                            "early-exit-too-soon",
+                                            m as u64,
+                                            format!("run with convergence = {:e} stopped after loop {}, but loop {} improved the score by {:e} (>= threshold)", thr, l, q, b - a),
+                                        )),
+                                        false,
+                                    );
                                 }
                             }
                             _ => unresolved = true,
                         }
                     }
-                    out.count("probe.early_exit_unresolved", unresolved as u64);
+                    (None, unresolved)
+                };
+                let mut first: Option<Violation> = None;
+                let mut ok = false;
+                for back in 0..=trailing_nulls.min(props) {
+                    match judge(props - back) {
+                        (None, unresolved) => {
+                            out.count("probe.early_exit_unresolved", unresolved as u64);
+                            ok = true;
+                            break;
+                        }
+                        (Some(v), _) => {
+                            if first.is_none() {
+                                first = Some(v);
+                            }
+                        }
+                    }
+                }
+                if !ok {
+                    if let Some(v) = first {
+                        out.violate(v);
+                    }
                 }
             }
         }
